@@ -78,7 +78,9 @@ def run(ctx):
     R.say("C12: methods with write effects: %s" % sorted(W))
     R.floor("writer_methods", len(W), 11)
 
-    # 2. dispatch paths
+    # 2. dispatch paths (the rules below look for the validator *calls* on guard edges: keep calls as calls)
+    import terms as _terms
+    _terms.INLINE_ACCESSORS = False
     mw_impls = [f for f in F.fns.values() if (f.j.get("trait") or "").endswith("RpcServiceT") and f.kind == "method"]
     by_method = {f.j["method"]: f for f in mw_impls}
     R.floor("rpc_service_methods", len(by_method), 3)
@@ -172,6 +174,7 @@ def run(ctx):
     _check_allow(R, F)
     # 4. wiring
     _check_wiring(R, F, CG)
+    _terms.INLINE_ACCESSORS = True
     return R
 
 
